@@ -157,6 +157,11 @@ class Env:
         from typedpy import Structure, Partial
         from typedpy.serialization.fast_serialization import FastSerializable
         p = src.get("parent")
+        for f in src["fields"]:
+            if "ref" in f["kind"] and f["kind"]["ref"] not in self.classes:
+                raise NameError("class %d is not defined" % f["kind"]["ref"])   # not a program: skipped whole
+        if p is not None and p["c"] not in self.classes:
+            raise NameError("class %d is not defined" % p["c"])
         body = {}
         for f in src["fields"]:
             body[f["name"]] = self.build_field(f)
